@@ -494,7 +494,7 @@ def idl_known_key(line):
         return "inline-enum-variant-comment"
     if line.startswith("idlrt "):
         t = line.split(" T ", 1)[1].split(" =>")[0]
-        if _re.search(r"V[0-9a-f]+\{[0-9a-f]", t):
+        if _re.search(r"V[0-9a-f]+\{[0-9a-f-]", t):      # `-` is the empty comment
             return "commented-enum-variant"
     return None
 
@@ -517,7 +517,7 @@ def rt_nontrivial(inp, impl):
         ks.append("parsed-back")
     if " P error" in impl:
         ks.append("rendering-rejected")
-    if "{" in inp and __import__("re").search(r"\{[0-9a-f]", inp):
+    if "{" in inp and __import__("re").search(r"\{[0-9a-f-]", inp):
         ks.append("has-comments")
     return ks
 
@@ -808,6 +808,15 @@ def intro_nontrivial(inp, impl):
 def run_intro(run, cfg, G):
     for pre in ("introty", "intro", "intrort"):
         diff_run(run, G, ["intro"], pre, intro_nontrivial, "intro-" + pre, known_key=intro_known_key)
+    # modules on which a derive does not compile
+    failed = sorted(getattr(run, "corpora", {}).get("in_failed", {}).items())
+    if failed:
+        idx, b = failed[0]
+        path = run.replay_path(f"intro-derive-does-not-compile-{idx}")
+        json.dump({"property": run.pid, "kind": "a derive does not compile for a declaration of this module (declaration in the line protocol's notation; the Rust source is module i%d of harness/zvc/src/gen_intro.rs after `python3 /verif/bin/corpora.py %d %s`)" % (idx, run.seed, run.tier),
+                   "declaration": b["decl"], "rustc": b["error"], "at": b["at"], "modules_failing": [i for i, _ in failed]}, open(path, "w"), indent=1)
+        run.violations.append(("impl", path, ""))
+    run.cov["compile_failures"] = len(failed)
     finish_corr(run, G, [])
     n = corpus_sizes(run)["intro"]
     run.cov["programs"] = n
